@@ -37,11 +37,13 @@ Batches == ndJsonDeserialize(IOEnv.BATCHES)
 
 EngRec(e) == [modes |-> Range(e.modes), feats |-> Range(e.feats), plans |-> Range(e.plans),
               comps |-> Range(e.comps), opt |-> Range(e.opt), any |-> Range(e.any)]
-Regs == TLCEval([b \in DOMAIN Batches |-> [e \in DOMAIN Batches[b].engines |-> EngRec(Batches[b].engines[e])]])
-RKs == TLCEval([b \in DOMAIN Batches |->
+\* per batch: the registry, the resulting-kind table and the preference lists in Factory's shapes.
+\* (Constant-level definitions, evaluated once: the bound names must differ from the variables.)
+Regs == TLCEval([bb \in DOMAIN Batches |-> [e \in DOMAIN Batches[bb].engines |-> EngRec(Batches[bb].engines[e])]])
+RKs == TLCEval([bb \in DOMAIN Batches |->
                   {[e |-> w.e, ck |-> w.ck, in |-> Range(w.in), out |-> [k |-> w.out.k, f |-> Range(w.out.f), x |-> w.out.x]] :
-                     w \in Range(Batches[b].rk)}])
-Prefs == TLCEval([b \in DOMAIN Batches |-> Batches[b].prefs])
+                     w \in Range(Batches[bb].rk)}])
+Prefs == TLCEval([bb \in DOMAIN Batches |-> Batches[bb].prefs])
 
 VARIABLES b, i
 jvars == <<b, i>>
